@@ -1098,6 +1098,10 @@ def class_attr(ex, st, cref: ClassRef, attr, instance):
     if c is not None:
         yield st, ex.const_fold(*c, st=st)
         return
+    ext = getattr(ex.db, "class_consts", {}).get((cref.module, cref.qualname, attr))
+    if ext is not None and instance is None:
+        yield st, ext  # a constant of a class outside the repository (datetime.timezone.utc), declared by a contract module
+        return
     if cref.module == "builtins":
         raise U(f"attribute {attr} on builtin class")
     io = st.deref(instance) if instance is not None else None
@@ -1144,8 +1148,11 @@ def opaque_attr(ex, st, v: Opaque, attr):
         yield st, pure_result(ex, st, f"{v.kind}.{attr}", payload.strip(), [v])  # a list-valued field: a function of the object
         return
     if kind == "field":
-        sort = parse_sort(payload)
+        nonempty = payload == "nonempty-str"  # assumed invariant of the collaborator: the field is a non-empty string
+        sort = parse_sort("str" if nonempty else payload)
         f = ex.uf(f"{v.kind}.{attr}", z3sort(("u", v.kind)), z3sort(sort))
+        if nonempty:
+            st.assume(z3.Length(f(v.t)) > 0)  # the ground instance of the assumption for the object read
         if isinstance(sort, tuple) and sort[0] == "u":
             yield st, Opaque(sort[1], f(v.t))
         else:
@@ -1676,6 +1683,14 @@ def isinstance_check(ex, st, ref, tp):
             # dynamic class object: membership is an uninterpreted relation between value and class
             f = ex.uf(f"isinstance_dyn_{v.kind}_{tp.kind}", z3sort(("u", v.kind)), z3sort(("u", tp.kind)), z3.BoolSort())
             return SV("bool", f(v.t, tp.t))
+        if isinstance(tp, Opaque):
+            # an abstract class object (or tuple of classes): nothing is known about the answer - an arbitrary truth
+            # value (for a value with a term: a function of value and class object)
+            if isinstance(v, SV) and hasattr(v, "t"):
+                f = ex.uf(f"isinstance_dyn_{v.t.sort()}_{tp.kind}".replace(" ", "_"), v.t.sort(), z3sort(("u", tp.kind)), z3.BoolSort())
+                return SV("bool", f(v.t, tp.t))
+            from .values import fresh
+            return fresh("bool", "isinstance_dyn")
         raise U(f"isinstance against {tp!r}")
     name = name.split(".")[-1]
     if isinstance(v, SV) and isinstance(v.sort, tuple) and v.sort[0] == "opt":
